@@ -21,6 +21,7 @@ func init() {
 }
 
 func runC07(c *Ctx) {
+	c.Rule("R7.7", 1, "a specification is not rejected because the dependency fails on it")
 	c.Rule("R7.6", 3, "every precedence level written reaches the recorded list (and with it the verifier of the levels)")
 	c.Rule("R7.1", 8, "every verifier runs and is heard; success only with a nil aggregate")
 	c.Rule("R7.2", 3, "predefined names are the documented ones; unknown names are errors")
@@ -42,6 +43,9 @@ func runC07(c *Ctx) {
 	checkPredefs(c, ev)
 	checkBookkeeping(c)
 	checkPatternErrors(c)
+	if roots := entryPoints(c); len(roots) >= 10 {
+		checkRecoveredPanicRejects(c, "R7.7", c.reachableFrom(roots...))
+	}
 	// a handle listed in two levels is reported by the levels' verifier, which sees the recorded list: every directive must get there
 	{
 		before := len(c.Obs)
@@ -106,6 +110,62 @@ func checkVerifiers(c *Ctx, ev *evaluator) {
 	})
 	want := map[string]bool{"SymbolTable": false, "CFG": false, "PrecedenceLevels": false}
 	for _, v := range verifs {
+		if v.Call.IsInvoke() {
+			// for _, x := range []interface{ Verify() error }{cfg, precedences} { x.Verify() }: the values of the literal list
+			var names []string
+			for _, r := range rootsOf(clo, v.Call.Value, nil) {
+				ia, ok := r.(*ssa.IndexAddr)
+				if !ok {
+					continue
+				}
+				var arr ssa.Value = ia.X
+				if sl, ok := arr.(*ssa.Slice); ok {
+					arr = sl.X
+				}
+				al, ok := arr.(*ssa.Alloc)
+				if !ok || al.Referrers() == nil {
+					continue
+				}
+				for _, rr := range *al.Referrers() {
+					ia2, ok := rr.(*ssa.IndexAddr)
+					if !ok || ia2.Referrers() == nil {
+						continue
+					}
+					for _, r3 := range *ia2.Referrers() {
+						if st, ok := r3.(*ssa.Store); ok {
+							if mi, ok := st.Val.(*ssa.MakeInterface); ok {
+								if _, n := namedTypeName(mi.X.Type()); n != "" {
+									names = append(names, n)
+								}
+							}
+						}
+					}
+				}
+			}
+			if len(names) == 0 {
+				c.Undecided("R7.1", "a verifier called through an interface", v.Pos(), "the values the interface call ranges over were not found")
+				continue
+			}
+			// the loop runs for every element of a non-empty literal: its header dominating the return is what counts
+			dom := false
+			for d := v.Block(); d != nil; d = d.Idom() {
+				if d.Dominates(sret.Block()) && d != v.Block() {
+					dom = true
+					break
+				}
+			}
+			for _, rn := range names {
+				if _, ok := want[rn]; ok {
+					want[rn] = true
+				}
+				key := "verifier " + rn + ".Verify"
+				c.Check("R7.1", key+" runs on every path to the successful result", v.Pos(), dom, "the successful *Spec return is not dominated by the loop that calls the verifiers")
+				c.Check("R7.1", key+": its error reaches the returned error", v.Pos(), errReachesReturn(clo, v), "the verifier's error is dropped", "a specification with exactly the defect this verifier detects")
+				uncond, why := recordedUnconditionally(v)
+				c.Check("R7.1", key+": its error is recorded whenever it is non-nil", v.Pos(), uncond, why, "a specification with exactly the defect this verifier detects")
+			}
+			continue
+		}
 		f := calleeFunc(v)
 		_, rn := namedTypeName(f.Type().(*types.Signature).Recv().Type())
 		if _, ok := want[rn]; ok {
@@ -173,6 +233,35 @@ func checkVerifiers(c *Ctx, ev *evaluator) {
 				call = cv
 			}
 		})
+		if call == nil {
+			// the helpers as method values in a list that is walked and called: t.ensureX appears as a bound method closure,
+			// and the function calls a function value it takes out of a slice
+			bound := false
+			var dyn *ssa.Call
+			for _, b := range vfn.Blocks {
+				for _, in := range b.Instrs {
+					if mc, ok := in.(*ssa.MakeClosure); ok {
+						if fn, ok := mc.Fn.(*ssa.Function); ok && strings.HasPrefix(fn.Name(), h.Name()+"$bound") {
+							bound = true
+						}
+					}
+					if cv, ok := in.(*ssa.Call); ok && !cv.Call.IsInvoke() && cv.Call.StaticCallee() == nil {
+						if _, isBuiltin := cv.Call.Value.(*ssa.Builtin); !isBuiltin {
+							dyn = cv
+						}
+					}
+				}
+			}
+			if bound && dyn != nil {
+				c.Pass("R7.1", "Verify calls "+h.Name(), vfd.Pos(), "through a list of checks that is walked and called")
+				c.Check("R7.1", "Verify: error of "+h.Name()+" reaches the result", dyn.Pos(), errReachesReturn(vfn, dyn), "the error of the checks called from the list is dropped")
+				continue
+			}
+			if bound {
+				c.Undecided("R7.1", "Verify calls "+h.Name(), vfd.Pos(), "the helper is taken as a method value, and where that value is called was not found")
+				continue
+			}
+		}
 		if !c.Check("R7.1", "Verify calls "+h.Name(), vfd.Pos(), call != nil, "a well-formedness helper is never called: that kind of defect is accepted silently") {
 			continue
 		}
